@@ -337,6 +337,13 @@ void
 Pointset_Powerset<PSET>
 ::remove_higher_space_dimensions(dimension_type new_dimension) {
   Pointset_Powerset& x = *this;
+  if (new_dimension > x.space_dim) {
+    std::ostringstream s;
+    s << "PPL::Pointset_Powerset<PSET>::remove_higher_space_dimensions(nd):\n"
+      << "this->space_dimension() == " << x.space_dim << ", "
+      << "required space dimension == " << new_dimension << ".";
+    throw std::invalid_argument(s.str());
+  }
   if (x.sequence.empty()) {
     // Let the disjunct domain validate the arguments.
     PSET(x.space_dim, EMPTY).remove_higher_space_dimensions(new_dimension);
@@ -834,6 +841,13 @@ template <typename PSET>
 bool
 Pointset_Powerset<PSET>::contains(const Pointset_Powerset& y) const {
   const Pointset_Powerset& x = *this;
+  if (x.space_dimension() != y.space_dimension()) {
+    std::ostringstream s;
+    s << "PPL::Pointset_Powerset<PSET>::contains(y):\n"
+      << "this->space_dimension() == " << x.space_dimension() << ", "
+      << "y.space_dimension() == " << y.space_dimension() << ".";
+    throw std::invalid_argument(s.str());
+  }
   for (Sequence_const_iterator si = y.sequence.begin(),
          y_s_end = y.sequence.end(); si != y_s_end; ++si) {
     const PSET& pi = si->pointset();
@@ -861,6 +875,13 @@ Pointset_Powerset<PSET>::strictly_contains(const Pointset_Powerset& y) const {
      contained in one disjunct and also contained but not strictly
      contained in another disjunct of *this */
   const Pointset_Powerset& x = *this;
+  if (x.space_dimension() != y.space_dimension()) {
+    std::ostringstream s;
+    s << "PPL::Pointset_Powerset<PSET>::strictly_contains(y):\n"
+      << "this->space_dimension() == " << x.space_dimension() << ", "
+      << "y.space_dimension() == " << y.space_dimension() << ".";
+    throw std::invalid_argument(s.str());
+  }
   x.omega_reduce();
   for (Sequence_const_iterator si = y.sequence.begin(),
          y_s_end = y.sequence.end(); si != y_s_end; ++si) {
